@@ -281,6 +281,24 @@ func (w SocialWrappedCallbacks) create(c context.Context, a vocab.ActivityStream
 	return nil
 }
 
+// rawObjectAt returns the raw JSON of the idx-th value of the 'object' property
+// of the raw activity, when that value is a JSON object.
+func rawObjectAt(raw map[string]interface{}, idx int) map[string]interface{} {
+	switch o := raw["object"].(type) {
+	case map[string]interface{}:
+		if idx == 0 {
+			return o
+		}
+	case []interface{}:
+		if idx < len(o) {
+			if m, ok := o[idx].(map[string]interface{}); ok {
+				return m
+			}
+		}
+	}
+	return nil
+}
+
 // update implements the social Update activity side effects.
 func (w SocialWrappedCallbacks) update(c context.Context, a vocab.ActivityStreamsUpdate) error {
 	*w.undeliverable = false
@@ -325,8 +343,8 @@ func (w SocialWrappedCallbacks) update(c context.Context, a vocab.ActivityStream
 		for k, v := range newM {
 			m[k] = v
 		}
-		// Delete top-level values where the raw Activity had nils.
-		for k, v := range w.rawActivity {
+		// Delete top-level values where the raw object had nils.
+		for k, v := range rawObjectAt(w.rawActivity, idx) {
 			if _, ok := m[k]; v == nil && ok {
 				delete(m, k)
 			}
